@@ -1797,3 +1797,237 @@ Proof.
   exists [Route (SStatic [97;47;98]) None], [PStatic [97;47;98]], [].
   vm_compute. repeat split; reflexivity.
 Qed.
+
+(** ================================================================================
+    The same theorem with a base path (RouteDefs::new_with_base)
+    ================================================================================ *)
+Definition flat_good (q : bytes) (f : list pseg) : bool :=
+  match spre (toks f) q with Some (_, r) => rem_ok r | None => false end.
+
+(** the core of the argument, from any path at a component boundary *)
+Lemma core_match :
+  forall base rs q,
+    wf_tree rs = true -> wf_routes rs = true ->
+    existsb slash_static_flat (gen_routes rs) = false -> k_optional rs = false ->
+    at_boundary q = true -> kb (cores_of base rs) q = false ->
+    match_siblings rs 0 q <> NPanic
+    /\ is_yes (oproj (match_siblings rs 0 q)) = existsb (flat_good q) (gen_routes rs).
+Proof.
+  intros base rs q Hwt Hwf Hss Hopt Hb Hkb.
+  unfold k_optional in Hopt.
+  change (fun x : pseg => match x with POpt _ => true | _ => false end) with is_popt in Hopt.
+  assert (Hplain : forallb plain_route rs = true).
+  { unfold gen_routes in Hopt. apply existsb_flat_map_false in Hopt.
+    unfold wf_tree in Hwt. clear -Hopt Hwt.
+    induction rs as [|r rs IH]; [reflexivity|]. cbn [forallb] in *.
+    apply andb_prop in Hwt. destruct Hwt as [Hr Hrs]. inversion Hopt; subst.
+    rewrite plain_from_flat, IH; auto. }
+  pose proof (siblings_chains rs Hplain 0%nat q) as Hsib.
+  assert (Hchain : forall L, In L (chains rs) ->
+            tproj (seqT (map seg_test L) q) = Some (spre (toks (flat_map gen_path L)) q)).
+  { intros L HL.
+    assert (Hin : In (flat_map gen_path L) (gen_routes rs))
+      by (rewrite gen_routes_chains; now apply in_map).
+    apply (chain_spre (cores_of base rs)).
+    - apply tame_from_flat.
+      + eapply chains_leaves; eauto.
+      + eapply existsb_false_in; eauto.
+      + unfold wf_routes in Hwf. rewrite forallb_forall in Hwf. now apply Hwf.
+      + eapply existsb_false_in; eauto.
+    - now apply cores_from_flat.
+    - split; assumption. }
+  assert (Hnp : Forall (fun L => seqT (map seg_test L) q <> TPanic) (chains rs)).
+  { apply Forall_forall. intros L HL Hc. specialize (Hchain L HL). rewrite Hc in Hchain. discriminate. }
+  destruct (first_chain_existsb q _ Hnp) as [Hnopanic Hyes].
+  rewrite Hsib. split.
+  - intros Hc. rewrite Hc in Hsib. cbn [oproj] in Hsib. now rewrite <- Hsib in Hnopanic.
+  - rewrite Hyes, gen_routes_chains, existsb_map. apply existsb_ext_in. intros L HL.
+    specialize (Hchain L HL). unfold good, flat_good.
+    destruct (seqT (map seg_test L) q) as [| |m r ps]; cbn [tproj] in Hchain.
+    + injection Hchain as <-. reflexivity.
+    + discriminate.
+    + injection Hchain as <-. reflexivity.
+Qed.
+
+Lemma ends_with_slash_cons : forall c w,
+  ends_with_slash (c :: w) = match w with [] => c =? slash | _ => ends_with_slash w end.
+Proof.
+  intros c w. unfold ends_with_slash. cbn [rev].
+  destruct w as [|d w]; [reflexivity|].
+  destruct (rev (d :: w)) as [|e l] eqn:E.
+  - apply (f_equal (@length N)) in E. rewrite rev_length in E. discriminate.
+  - reflexivity.
+Qed.
+
+Lemma spre_lit_gen : forall w T q, ends_with_slash w = false ->
+  spre (map TChr w ++ T) q = if is_prefix w q then spre T (skipn (length w) q) else None.
+Proof.
+  induction w as [|c w IH]; intros T q He; [reflexivity|].
+  rewrite ends_with_slash_cons in He.
+  assert (Hdef : spre (map TChr (c :: w) ++ T) q =
+                 match q with
+                 | c' :: p' => if c' =? c then spre (map TChr w ++ T) p' else None
+                 | [] => None
+                 end).
+  { cbn [map app spre]. destruct (c =? slash) eqn:Ec; [|reflexivity].
+    destruct w as [|d w]; [discriminate|]. reflexivity. }
+  rewrite Hdef. destruct q as [|c' q]; [reflexivity|].
+  rewrite is_prefix_cons. destruct (c' =? c); cbn [andb]; [|reflexivity].
+  apply IH. destruct w; [reflexivity|exact He].
+Qed.
+
+Lemma last_slash_split : forall l, has_slash l = true ->
+  exists l1 l2, l = l1 ++ slash :: l2 /\ has_slash l2 = false.
+Proof.
+  induction l as [|c l IH]; intros H; [discriminate|].
+  destruct (has_slash l) eqn:El.
+  - destruct (IH eq_refl) as (l1 & l2 & -> & H2). exists (c :: l1), l2. split; [reflexivity|exact H2].
+  - cbn [has_slash existsb] in H. fold (has_slash l) in H. rewrite El, orb_false_r in H.
+    apply N.eqb_eq in H. subst c. exists [], l. split; [reflexivity|exact El].
+Qed.
+
+Lemma split_noslash : forall l cur, has_slash l = false -> split_comps_aux cur l = [rev cur ++ l].
+Proof.
+  induction l as [|c l IH]; intros cur H; cbn [split_comps_aux].
+  - now rewrite app_nil_r.
+  - cbn [has_slash existsb] in H. apply orb_false_iff in H. destruct H as [Hc Hl].
+    rewrite Hc, (IH _ Hl). cbn [rev]. now rewrite <- app_assoc.
+Qed.
+
+Lemma split_last : forall x cur lc, has_slash lc = false ->
+  In lc (split_comps_aux cur (x ++ slash :: lc)).
+Proof.
+  induction x as [|c x IH]; intros cur lc H; cbn [app split_comps_aux].
+  - rewrite N.eqb_refl. right. rewrite (split_noslash _ _ H). now left.
+  - destruct (c =? slash); [right|]; now apply IH.
+Qed.
+
+Lemma kb_at : forall cores x y, kb cores (x ++ slash :: y) = false ->
+  existsb (fun s => bad_at s y) cores = false.
+Proof.
+  intros cores x y H. apply kb_suffix in H. cbn [kb] in H. rewrite N.eqb_refl in H.
+  cbn [andb] in H. now apply orb_false_iff in H.
+Qed.
+
+Lemma trim_start_slashes_id : forall s, starts_with_slash s = false -> trim_start_slashes s = s.
+Proof. intros [|c s] H; [reflexivity|]. cbn [starts_with_slash] in H. cbn. now rewrite H. Qed.
+
+Lemma strip_prefix_is_prefix : forall s q,
+  strip_prefix s q = if is_prefix s q then Some (skipn (length s) q) else None.
+Proof. reflexivity. Qed.
+
+Theorem match_iff_flat_base :
+  forall b rs p,
+    wf_tree rs = true -> wf_routes rs = true -> starts_with_slash p = true ->
+    known_class (Some b) rs p = false ->
+    matches (Some b) rs p = flat_any (Some b) rs p /\ match_route (Some b) rs p <> MPanic.
+Proof.
+  intros b rs p Hwt Hwf Hsl Hk.
+  unfold known_class in Hk.
+  apply orb_false_iff in Hk. destruct Hk as [Hk Hds].
+  apply orb_false_iff in Hk. destruct Hk as [Hk Hopt].
+  apply orb_false_iff in Hk. destruct Hk as [Hkb Hss].
+  unfold k_boundary in Hkb. unfold k_slash_static in Hss.
+  apply orb_false_iff in Hss. destruct Hss as [Hss Hbase].
+  unfold base_untame in Hbase.
+  apply orb_false_iff in Hbase. destruct Hbase as [Hbase Hbd].
+  apply orb_false_iff in Hbase. destruct Hbase as [Hbs Hbe]. apply negb_false_iff in Hbs.
+  unfold k_dslash in Hds.
+  (* shape of the base and of the path *)
+  destruct b as [|c0 b']; [discriminate|]. cbn [starts_with_slash] in Hbs.
+  apply N.eqb_eq in Hbs. subst c0.
+  destruct p as [|c0 p1]; [discriminate|]. cbn [starts_with_slash] in Hsl.
+  apply N.eqb_eq in Hsl. subst c0.
+  assert (Hb'ns : starts_with_slash b' = false).
+  { destruct b' as [|d b']; [reflexivity|]. cbn [starts_with_slash].
+    rewrite has_dslash_cons2, N.eqb_refl in Hbd. cbn [andb] in Hbd.
+    apply orb_false_iff in Hbd. now destruct Hbd. }
+  assert (Hp1ns : starts_with_slash p1 = false).
+  { destruct p1 as [|d p1]; [reflexivity|]. cbn [starts_with_slash].
+    rewrite has_dslash_cons2, N.eqb_refl in Hds. cbn [andb] in Hds.
+    apply orb_false_iff in Hds. now destruct Hds. }
+  (* the table side: every entry starts with the base, literally *)
+  assert (Hopt' := Hopt). unfold k_optional in Hopt'.
+  change (fun x : pseg => match x with POpt _ => true | _ => false end) with is_popt in Hopt'.
+  match goal with |- _ = ?X /\ _ =>
+  assert (Hflat : X =
+                  if is_prefix b' p1 then existsb (flat_good (skipn (length b') p1)) (gen_routes rs)
+                  else false) end.
+  { unfold flat_any, table. rewrite existsb_map.
+    transitivity (existsb (fun f => if is_prefix b' p1 then flat_good (skipn (length b') p1) f else false)
+                          (gen_routes rs)).
+    - apply existsb_ext_in. intros f Hin. unfold route_matches_flat.
+      assert (Hx : expand_optionals (PStatic (slash :: b') :: f) = [PStatic (slash :: b') :: f]).
+      { apply expand_no_opt. cbn [existsb is_popt orb]. eapply existsb_false_in; eauto. }
+      rewrite Hx. cbn [existsb]. rewrite orb_false_r.
+      rewrite flat_match_spre; [|reflexivity|exact Hds].
+      change (toks (PStatic (slash :: b') :: f))
+        with (seg_toks (PStatic (slash :: b')) ++ toks f).
+      unfold seg_toks, sep, needs_sep. rewrite N.eqb_refl. cbn [negb app].
+      rewrite (spre_lit_gen (slash :: b') (toks f) (slash :: p1) Hbe).
+      rewrite is_prefix_cons, N.eqb_refl. cbn [andb length skipn].
+      destruct (is_prefix b' p1); reflexivity.
+    - destruct (is_prefix b' p1); [reflexivity|].
+      generalize (gen_routes rs). intros l0. induction l0; [reflexivity|exact IHl0]. }
+  rewrite Hflat.
+  (* the router side *)
+  unfold matches, match_route, strip_base. cbn [starts_with_slash]. rewrite N.eqb_refl.
+  cbn [trim_start_slashes]. rewrite N.eqb_refl.
+  rewrite (trim_start_slashes_id _ Hb'ns), (trim_start_slashes_id _ Hp1ns), strip_prefix_is_prefix.
+  destruct (is_prefix b' p1) eqn:Ep; [|split; [reflexivity|discriminate]].
+  set (q := skipn (length b') p1).
+  (* q starts at a component boundary *)
+  assert (Hpq : slash :: p1 = (slash :: b') ++ q).
+  { cbn [app]. f_equal. unfold q. now apply is_prefix_split. }
+  destruct (last_slash_split (slash :: b')) as (l1 & l2 & Hl & Hl2).
+  { cbn [has_slash existsb]. now rewrite N.eqb_refl. }
+  assert (Hl2ne : l2 <> []).
+  { intros ->. rewrite Hl in Hbe. rewrite ends_with_slash_snoc in Hbe. discriminate. }
+  assert (Hin2 : In l2 (cores_of (Some (slash :: b')) rs)).
+  { unfold cores_of. apply filter_In. split.
+    - apply in_or_app. right. unfold split_comps. rewrite Hl. now apply split_last.
+    - unfold usable_core. destruct l2; [now elim Hl2ne|]. now rewrite Hl2. }
+  assert (Hbq : at_boundary q = true).
+  { assert (Hkb2 : kb (cores_of (Some (slash :: b')) rs) (l1 ++ slash :: (l2 ++ q)) = false).
+    { replace (l1 ++ slash :: l2 ++ q) with (slash :: p1); [exact Hkb|].
+      rewrite Hpq, Hl, <- app_assoc. reflexivity. }
+    apply kb_at in Hkb2.
+    pose proof (existsb_false_in _ _ _ _ Hkb2 Hin2) as Hbad. unfold bad_at in Hbad.
+    rewrite is_prefix_app, skipn_app_len in Hbad. cbn [andb] in Hbad.
+    destruct q as [|d q']; [reflexivity|]. cbn [at_boundary]. now apply negb_false_iff in Hbad. }
+  assert (Hkq : kb (cores_of (Some (slash :: b')) rs) q = false).
+  { rewrite Hpq in Hkb. now apply kb_suffix in Hkb. }
+  destruct (core_match (Some (slash :: b')) rs q Hwt Hwf Hss Hopt Hbq Hkq) as [Hnp Hyes].
+  rewrite <- Hyes.
+  destruct (match_siblings rs 0 q) as [| |ch ps rem] eqn:Em; cbn [oproj is_yes].
+  - now elim Hnp.
+  - split; [reflexivity|discriminate].
+  - assert (rem_ok rem = true) as ->.
+    { pose proof (siblings_chains rs) as Hs.
+      assert (Hplain : forallb plain_route rs = true).
+      { unfold gen_routes in Hopt'. apply existsb_flat_map_false in Hopt'.
+        unfold wf_tree in Hwt. clear -Hopt' Hwt.
+        induction rs as [|r rs IH]; [reflexivity|]. cbn [forallb] in *.
+        apply andb_prop in Hwt. destruct Hwt as [Hr Hrs]. inversion Hopt'; subst.
+        rewrite plain_from_flat, IH; auto. }
+      specialize (Hs Hplain 0%nat q). rewrite Em in Hs. cbn [oproj] in Hs.
+      eapply first_chain_rem_ok. symmetry. exact Hs. }
+    split; [reflexivity|discriminate].
+Qed.
+
+Theorem match_iff_flat_except_known :
+  forall base rs p,
+    wf_tree rs = true -> wf_routes rs = true -> starts_with_slash p = true ->
+    known_class base rs p = false ->
+    matches base rs p = flat_any base rs p /\ match_route base rs p <> MPanic.
+Proof.
+  intros [b|] rs p; [apply match_iff_flat_base|apply match_iff_flat_nobase].
+Qed.
+
+Example match_iff_flat_base_nontrivial :
+  let rs := [Route (SStatic [47]) None; Route (STuple [SStatic [97]; SParam [120]]) None] in
+  let b := [47;112;102] in
+  let p := [47;112;102;47;97;47;49] in
+  wf_tree rs = true /\ wf_routes rs = true /\ known_class (Some b) rs p = false
+  /\ matches (Some b) rs p = true /\ flat_any (Some b) rs p = true.
+Proof. vm_compute. repeat split; reflexivity. Qed.
